@@ -30,36 +30,38 @@ type OutFault struct {
 }
 
 type C15Plan struct {
-	Op        string     `json:"op"` // encrypt decrypt keygen keygen-y
-	Keys      []world.Key `json:"keys,omitempty"` // encrypt: recipients; decrypt: file's recipients
-	IdKey     int        `json:"id_key"`          // decrypt: which of Keys the identity file holds; -1: an outsider (no match)
-	ExtraIDs  int        `json:"extra_ids,omitempty"` // decrypt: non-matching identity files given first
-	RecipVia  string     `json:"recip_via,omitempty"` // encrypt: "-r" | "-R" | "-i" (-e -i)
-	Armor     bool       `json:"armor,omitempty"`
-	PLen      int        `json:"plen"`
-	PSeed     uint64     `json:"pseed"`
-	Tape      uint64     `json:"tape,omitempty"`
-	InVia     string     `json:"in_via"`  // file | stdin
-	OutVia    string     `json:"out_via"` // file (-o) | stdout (pipe) | stdout-file (stdout redirected to a file)
-	Dash      bool       `json:"dash,omitempty"` // spell stdin as the input name "-" and stdout as "-o -"
-	Damage    string     `json:"damage,omitempty"` // decrypt: header payload trunc
-	Fault     OutFault   `json:"fault"`
-	Sweep     bool       `json:"sweep,omitempty"` // fsize = every n in 0..len(output)
-	PreExist  bool       `json:"pre_exist,omitempty"`
-	PreLink   bool       `json:"pre_link,omitempty"` // the pre-existing -o name is a symbolic link to the existing file
-	PreEmpty  bool       `json:"pre_empty,omitempty"` // the pre-existing file has length 0
-	SameAs    string     `json:"same_as,omitempty"`  // -o names: input | identity | recipients
-	Spelling  string     `json:"spelling,omitempty"` // dot | dotdot | abs | plain
-	Umask     int        `json:"umask,omitempty"`
-	NKeys     int        `json:"nkeys,omitempty"` // keygen-y: identities in the input
-	RaceAt    string     `json:"race_at,omitempty"`   // keygen-race: open | mid  (when the competing creator acts)
-	RaceKind  string     `json:"race_kind,omitempty"` // keygen-race: file | symlink | hardlink
+	Op       string      `json:"op"`                  // encrypt decrypt keygen keygen-y
+	Keys     []world.Key `json:"keys,omitempty"`      // encrypt: recipients; decrypt: file's recipients
+	IdKey    int         `json:"id_key"`              // decrypt: which of Keys the identity file holds; -1: an outsider (no match)
+	ExtraIDs int         `json:"extra_ids,omitempty"` // decrypt: non-matching identity files given first
+	RecipVia string      `json:"recip_via,omitempty"` // encrypt: "-r" | "-R" | "-i" (-e -i)
+	Armor    bool        `json:"armor,omitempty"`
+	PLen     int         `json:"plen"`
+	PSeed    uint64      `json:"pseed"`
+	Tape     uint64      `json:"tape,omitempty"`
+	InVia    string      `json:"in_via"`           // file | stdin
+	OutVia   string      `json:"out_via"`          // file (-o) | stdout (pipe) | stdout-file (stdout redirected to a file)
+	Dash     bool        `json:"dash,omitempty"`   // spell stdin as the input name "-" and stdout as "-o -"
+	Damage   string      `json:"damage,omitempty"` // decrypt: header payload trunc
+	Fault    OutFault    `json:"fault"`
+	Sweep    bool        `json:"sweep,omitempty"` // fsize = every n in 0..len(output)
+	PreExist bool        `json:"pre_exist,omitempty"`
+	PreLink  bool        `json:"pre_link,omitempty"`  // the pre-existing -o name is a symbolic link to the existing file
+	PreEmpty bool        `json:"pre_empty,omitempty"` // the pre-existing file has length 0
+	SameAs   string      `json:"same_as,omitempty"`   // -o names: input | identity | recipients
+	Spelling string      `json:"spelling,omitempty"`  // dot | dotdot | abs | plain
+	Umask    int         `json:"umask,omitempty"`
+	NKeys    int         `json:"nkeys,omitempty"`     // keygen-y: identities in the input
+	RaceAt   string      `json:"race_at,omitempty"`   // keygen-race: open | mid  (when the competing creator acts)
+	RaceKind string      `json:"race_kind,omitempty"` // keygen-race: file | symlink | hardlink
 }
 
 type C15 struct{}
 
-func (C15) ID() string           { return "C15" }
-func (C15) Title() string        { return "process sandbox: the real age and age-keygen binaries under output faults, damaged inputs and pre-existing files" }
+func (C15) ID() string { return "C15" }
+func (C15) Title() string {
+	return "process sandbox: the real age and age-keygen binaries under output faults, damaged inputs and pre-existing files"
+}
 func (C15) NewPlan() interface{} { return &C15Plan{} }
 func (C15) Runs(tier string) int {
 	if tier == "thorough" {
@@ -70,8 +72,8 @@ func (C15) Runs(tier string) int {
 
 func (C15) Meta() core.Meta {
 	return core.Meta{
-		Level: "fault_enumeration",
-		Rule: "a case = one process run of the real binary: operation (encrypt with -r/-R/-e -i, decrypt with -i incl. several identity files, keygen, keygen -y), key types (X25519, ssh-ed25519, ssh-rsa), armor, input size 0..3 chunks from file or pre-filled pipe, output to -o file / pipe / redirected file, damaged input (header flip, payload flip, truncation, truncation exactly at a chunk boundary), pre-existing output, -o naming the input / an identity file / a recipients file under ./x, d/../x, absolute, and non-canonical absolute (/./, /d/../, //) spellings, and one output fault: RLIMIT_FSIZE=n (sweep runs: every n in 0..len(output)), missing parent directory, target is a directory, /dev/full, stdout pipe closed before start; or (keygen-race) a second actor that creates the -o name (regular file, symbolic link or hard link, exclusively) at the moment age-keygen -y opens its FIFO input or after half of the input. Oracle: a name another party managed to create is never replaced or written through, and then the status is non-zero; exit 0 => destination holds the complete result (decrypt: == P; encrypt: reference model decrypts it to the input; keygen: parseable key file, mode 0600; keygen -y: all recipient lines); no fault and valid input => exit 0; header-level refusal => -o neither created nor modified; payload failure => output is a prefix of P; same-file => refused, files intact; keygen -o existing => refused, intact. Non-trivial = a fault, damage, pre-existing or same-file condition is present; distinct = distinct plans.",
+		Level:       "fault_enumeration",
+		Rule:        "a case = one process run of the real binary: operation (encrypt with -r/-R/-e -i, decrypt with -i incl. several identity files, keygen, keygen -y), key types (X25519, ssh-ed25519, ssh-rsa), armor, input size 0..3 chunks from file or pre-filled pipe, output to -o file / pipe / redirected file, damaged input (header flip, payload flip, truncation, truncation exactly at a chunk boundary), pre-existing output, -o naming the input / an identity file / a recipients file under ./x, d/../x, absolute, and non-canonical absolute (/./, /d/../, //) spellings, and one output fault: RLIMIT_FSIZE=n (sweep runs: every n in 0..len(output)), missing parent directory, target is a directory, /dev/full, stdout pipe closed before start; or (keygen-race) a second actor that creates the -o name (regular file, symbolic link or hard link, exclusively) at the moment age-keygen -y opens its FIFO input or after half of the input. Oracle: a name another party managed to create is never replaced or written through, and then the status is non-zero; exit 0 => destination holds the complete result (decrypt: == P; encrypt: reference model decrypts it to the input; keygen: parseable key file, mode 0600; keygen -y: all recipient lines); no fault and valid input => exit 0; header-level refusal => -o neither created nor modified; payload failure => output is a prefix of P; same-file => refused, files intact; keygen -o existing => refused, intact. Non-trivial = a fault, damage, pre-existing or same-file condition is present; distinct = distinct plans.",
 		Assumptions: []string{"kernel, file system and process scheduling are real and not controlled; nothing in the oracle depends on timing (pipes are pre-filled or closed before start)", "passphrase (-p / scrypt) flows need a terminal and are not exercised here", "runs as root: permission-denied destinations are not generated", "a death by signal (SIGXFSZ, SIGPIPE) counts as a non-zero status", "the key age-keygen generates comes from the child process's real CSPRNG: its value is checked for consistency, never logged or compared between runs"},
 		Real:        []string{"cmd/age and cmd/age-keygen binaries built from the working tree", "Linux kernel: files, pipes, RLIMIT_FSIZE, /dev/full"},
 		Stub:        []string{"argv, environment, input files, identity/recipient files, file descriptors and limits (the plan)"},
@@ -119,7 +121,7 @@ func (C15) Generate(r *core.RNG, tier string, idx uint64) interface{} {
 	p.OutVia = []string{"file", "file", "stdout", "stdout-file"}[r.Intn(4)]
 	p.Keys = genCLIKeys(r, r.Range(1, 3))
 	p.RecipVia = []string{"-r", "-R", "-i"}[r.Intn(3)]
-	p.Umask = r.Pick(0, 0o22, 0o77)
+	p.Umask = r.Pick(0, 0o22, 0o77, 0o27, 0o07, 0o26, 0o02)
 	p.Dash = r.Chance(1, 4)
 	p.NKeys = r.Range(1, 3)
 	if p.Op == "decrypt" {
@@ -399,7 +401,7 @@ func (e C15) one(p *C15Plan, fault OutFault, c *core.Ctx, ageBin, kgBin string, 
 	P := core.Pattern(p.PSeed, p.PLen)
 	var argv []string
 	var stdin []byte
-	var expected []byte     // decrypt: exact expected output
+	var expected []byte               // decrypt: exact expected output
 	var verify func(out []byte) error // encrypt / keygen: output validity
 	inputPath, idPath, recPath := "", "", ""
 	headerRefusal, payloadFailure := false, false
